@@ -18,6 +18,7 @@ EXPLANATION = (
     "mapped by mutually inverse tables, accumulate (entry API, never insert/extend) and the "
     "procedural maps are restored from their dedicated trailing fields; (4) serialize emits "
     "MAGIC || 0 and deserialize dispatches on the same constants."
+    ' Later additions: every wire struct writes each field on every path (no skip_field; read from the derived serialize), each `serialize_with` wrapper is resolved per field; neither legacy conversion iterates through a dropping / truncating adapter; the decoded blocker and cache are installed as decoded (C09.4).'
 )
 NOT_DECIDED = ("Behavioural equality of two engines on concrete queries; that msgpack encodes each "
                "primitive faithfully (dependency).")
